@@ -20,8 +20,9 @@ type Clause struct {
 }
 
 type LoopSpec struct {
-	Invariants []*Clause
-	Decreases  []*SX
+	Invariants  []*Clause
+	Transitions []*Clause // two-state facts about one iteration: X@iter is the value at the start of the iteration
+	Decreases   []*SX
 }
 
 // FuncContract is the contract of one repository function, parsed from //@ comment lines.
@@ -102,6 +103,15 @@ func parseContractFile(path, pkgDir string) ([]*FuncContract, error) {
 		}
 		if cur == nil {
 			return fmt.Errorf("%s:%d: clause outside func", path, pendLine)
+		}
+		if kind == "transition" {
+			if curLoop == "" {
+				return fmt.Errorf("%s:%d: transition outside loop block", path, pendLine)
+			}
+			for _, x := range xs {
+				cur.Loops[curLoop].Transitions = append(cur.Loops[curLoop].Transitions, &Clause{Kind: kind, X: x, Tags: tags, Src: x.String(), File: path, Line: pendLine})
+			}
+			return nil
 		}
 		switch kind {
 		case "requires", "ensures", "invariant":
@@ -210,6 +220,8 @@ func parseContractFile(path, pkgDir string) ([]*FuncContract, error) {
 			kw, rest = line[:i], strings.TrimSpace(line[i:])
 		}
 		switch kw {
+		case "transition":
+			pendKind, pend, pendLine = "transition", rest, ln
 		case "assert", "guarantees":
 			kw = "invariant" // site assertions are stored like invariants of the pseudo-loop "@<site>"
 			pendKind, pend, pendLine = kw, rest, ln
